@@ -250,6 +250,26 @@ def gen_gir(rng, names, prefixes, foreign=()):
                     dom = ' glib:error-domain="%s"' % cand
             L.append('<%s name="%s" c:type="LkE%d"%s%s><member name="a" value="1" c:identifier="LK_E%d_A"/></%s>' % (
                 e['kind'], x, i, gt, dom, i, e['kind']))
+        elif r < 0.9 and foreign:
+            # the other registered kinds (GObject is included whenever there are foreign references): classes - abstract,
+            # final or neither -, interfaces, registered unions, boxed types without a C declaration
+            kind = rng.choice(['class', 'class', 'class', 'interface', 'union', 'glib:boxed'])
+            e['kind'] = kind
+            base = re.sub(r'[^A-Za-z0-9_]', '', nm) or 'T'
+            cand = rng.choice(pfx) + base[:1].upper() + base[1:] + {'class': 'C', 'interface': 'I', 'union': 'U', 'glib:boxed': 'B'}[kind]
+            if not GTYPE_OK.match(cand) or cand in used_gt:
+                cand = 'Lk%sN%d' % ({'class': 'C', 'interface': 'I', 'union': 'U', 'glib:boxed': 'B'}[kind], i)
+            used_gt.add(cand)
+            e['gtype'] = cand
+            gt = ' glib:type-name="%s" glib:get-type="lk_k%d_get_type"' % (cand, i)
+            if kind == 'class':
+                L.append('<class name="%s" c:type="LkK%d" parent="GObject.Object"%s%s/>' % (x, i, rng.choice(['', ' abstract="1"', ' abstract="1"', ' final="1"']), gt))
+            elif kind == 'interface':
+                L.append('<interface name="%s" c:type="LkK%d"%s/>' % (x, i, gt))
+            elif kind == 'union':
+                L.append('<union name="%s" c:type="LkK%d"%s><field name="a" writable="1"><type name="gint" c:type="gint"/></field></union>' % (x, i, gt))
+            else:
+                L.append('<glib:boxed glib:name="%s"%s/>' % (x, gt))
         else:
             e['kind'] = 'function'
             L.append('<function name="%s" c:identifier="lk_f%d"><return-value transfer-ownership="none"><type name="none" c:type="void"/></return-value></function>' % (x, i))
@@ -280,6 +300,8 @@ def typelib_case(case):
     names = gen_names(rng, n, style, entry_safe=True)       # gitypelib.c validate_name: [A-Za-z0-9_-], at most 2047 bytes
     prefixes = rng.choice(['Lk', 'Lk', 'Lk,L', 'Lkx,Lk', 'Gdk,G', 'Lk,Other', 'Longprefix,Lk,L'])
     foreign = [f for f in rng.sample(FOREIGN, rng.choice([0, 1, 2, 4])) if f not in names]
+    if foreign and len(names) + len(foreign) > 65535:
+        names = names[:65535 - len(foreign)]           # the directory index is a guint16: at most 65535 entries
     names = ['uses_foreign_%d' % k for k in range(len(foreign))] + names if foreign else names
     gir, model = gen_gir(rng, names[len(foreign):] if foreign else names, prefixes, foreign)
     model = [{'name': 'uses_foreign_%d' % k, 'gtype': None, 'domain': None, 'kind': 'function'} for k in range(len(foreign))] + model
